@@ -198,8 +198,8 @@ def gen_stack_case(rng):
         k = rng.choice([1, 2, 3])
         timedep = rng.random() < 0.7
         parts.append({"k": k, "polys": gen_polys(rng, k, d, rng.choice([1, 2]), timedep, rng.choice([2, 3])),
-                      "lift_by": rng.choice([0, 1, 2, 3])})
-    K = max(p["k"] + p["lift_by"] for p in parts)
+                      "lift_by": rng.choice([None, 0, 1, 2, 3])})      # None: the residual itself, not lifted
+    K = max(p["k"] + (p["lift_by"] or 0) for p in parts)
     n = K + rng.choice([0, 0, 1])
     return {"kind": "stack", "d": d, "parts": parts, "coords": [[qpt(rng) for _ in range(d)] for _ in range(n)], "t": qpt(rng, -4, 4)}
 
@@ -236,7 +236,8 @@ def coq_terms(c):
                 ("residual_of_lifted", f"c11_res_from_lifted {common} {zlit(c['lift_by'])} {tail}"),
                 ("lift_f", f"c11_lift {common} {zlit(c['lift_by'])} {lib.qcmat(c['coords'][: k + c['lift_by']])} {lib.qclit(c['t'])}")]
     if c["kind"] == "stack":
-        parts = "[" + "; ".join(f"({lib.coq_nat(p['k'])}, {coq_polys(p['polys'])}, {zlit(p['lift_by'])})" for p in c["parts"]) + "]"
+        parts = "[" + "; ".join(f"({lib.coq_nat(p['k'])}, {coq_polys(p['polys'])}, "
+                                + ("None" if p["lift_by"] is None else f"Some {zlit(p['lift_by'])}") + ")" for p in c["parts"]) + "]"
         return [("stack", f"c11_stack {lib.coq_nat(c['d'])} {parts} {lib.qcmat(c['coords'])} {lib.qclit(c['t'])}")]
     kind = {"dense": 0, "iso": 1, "blockdiag": 2}[c["ssm"]]
     lin = {"ts0": 0, "ts1": 1}[c["lin"]]
@@ -452,12 +453,14 @@ def main():
         # ----------------------------------------------------------------- stack
         if c["kind"] == "stack":
             d = c["d"]
-            K = max(p["k"] + p["lift_by"] for p in c["parts"])
-            ck.count(key, nontrivial=len({p["k"] + p["lift_by"] for p in c["parts"]}) > 1, kind="stack", d=d, parts=len(c["parts"]), K=K,
+            K = max(p["k"] + (p["lift_by"] or 0) for p in c["parts"])
+            ck.count(key, nontrivial=len({p["k"] + (p["lift_by"] or 0) for p in c["parts"]}) > 1, kind="stack", d=d, parts=len(c["parts"]), K=K,
+                     unlifted_parts=sum(p["lift_by"] is None for p in c["parts"]),
                      sample={"case": jc, "impl": r} if ci % 29 == 0 else None)
             spec_parts = []
             for p in c["parts"]:
-                td = total_derivatives(p["polys"], p["k"], d, p["lift_by"], c["coords"][: p["k"] + p["lift_by"]], c["t"])
+                mm = p["lift_by"] or 0
+                td = total_derivatives(p["polys"], p["k"], d, mm, c["coords"][: p["k"] + mm], c["t"])
                 spec_parts.append([x for v in td for x in v])
             ms = model(ci, "stack")
             if ms is not None:
@@ -470,12 +473,12 @@ def main():
                 ck.report("C11.stack.exception", f"stacked residual raised {r['call']['raised']}: {r['call'].get('msg')!r}", replay)
                 continue
             out, lens = r["call"]["out"]
-            want_lens = [p["lift_by"] + 1 for p in c["parts"]]
+            want_lens = [(p["lift_by"] or 0) + 1 for p in c["parts"]]
             if lens != want_lens:
                 ck.report("C11.stack.shape", f"stacked residual returns parts of lengths {lens}, expected {want_lens}", replay)
             mism = compare(out, spec_parts, "part")
             if mism:
-                ck.report("C11.stack.value", f"stacked residual (orders {[(p['k'], p['lift_by']) for p in c['parts']]}, {len(c['coords'])} "
+                ck.report("C11.stack.value", f"stacked residual ((k, lift_by) = {[(p['k'], p['lift_by']) for p in c['parts']]}, {len(c['coords'])} "
                           f"coefficients): {mism}", dict(replay, expected=[[str(x) for x in v] for v in spec_parts]))
             continue
 
